@@ -63,7 +63,14 @@ def uniquify(t):
     def f(x):
         if x[0] == "id" and not x[2]:
             n[0] += 1
-            return ("id", "%s_%d" % (x[1], n[0]), ())
+            # schema-name shapes: leading underscores, upper case, trailing underscore, long
+            shape = ("%s_%d", "_%s_%d", "%s_%d", "__%s_%d", "%s_%d_", "%s_%d")[n[0] % 6]
+            name = shape % (x[1], n[0])
+            if n[0] % 6 == 2:
+                name = name.upper()
+            if n[0] % 12 == 5:
+                name = name + "_" + "w" * (127 - len(name))
+            return ("id", name, ())
         if x[0] == "lit":
             n[0] += 1
             k, v = x[1], x[2]
@@ -82,7 +89,7 @@ def uniquify(t):
 def add_durations(rng, t):
     """Now and then add a duration to a datetime operand (INTERVAL arithmetic)."""
     def f(x):
-        if x[0] == "id" and x[1].startswith("d") and not x[1].startswith("dd") and rng.random() < 0.3:
+        if x[0] == "id" and _schema_of(x[1]) == "datetime" and rng.random() < 0.3:
             return ("bin", rng.choice(["add", "sub"]), x,
                     T.lit("duration", rng.choice(scalar.DUR_LITS + ["P1Y", "P2M", "P1Y2M3DT4H5M6S", "-P1DT2H",
                                                               "P1DT1H", "-P3DT3H3M", "P2DT5H2M", "-P1Y6M",
@@ -333,7 +340,7 @@ def one(ctx, t, dialect, alias):
 
 
 def _schema_of(name):
-    return profile().columns.get(name.split("_")[0])
+    return profile().columns.get(name.lstrip("_").split("_")[0].lower())
 
 
 def typed_ok(t):
